@@ -131,6 +131,13 @@ CHECKS["C18"] = dict(
    note="Trusted: stand-ins expose exactly what the validators inspect; one invalid parameter at a time; poly_trend<=3, n_offsets<=2, <=3 sources.",
    technique="symbolic execution of the real validators with symbolic validity predicates + z3; candidates replayed with real pymc variables",
    ref="3/C18")
+CHECKS["C12"] = dict(
+   text="Partly decided by the solver-driven exploration: the real _custom_tbl_dtype_compare on symbolic header lists (column counts 0..2, per column a symbolic choice among descriptors incl. absent / empty / real units) accepts iff both headers have the same columns; the append branch of the real write_table_hdf5 against an h5py model that logs mutating calls refuses incompatible appends before any mutation and concatenates compatible ones; "
+        "JokerSamples.write / read_batch dispatch; read_batch_slice/_idx/read_random_batch return exactly the requested rows of the requested columns times unit_in/unit_out (symbolic unit scales, symbolic index permutation, random subset drawn from rng without repeats). "
+        "Byte-level HDF5/FITS/YAML fidelity is NOT decidable by this technique: real write->read->append->overwrite round trips and batch reads run as conformance traces (they validate the stubs) and are reported as such.",
+   note="Trusted: h5py/pytables/astropy header stubs (validated by the real round-trip traces); bounds <=2 columns per header, 6 descriptors, N<=4.",
+   technique="symbolic execution of the real Python source over file models + z3; real-file round trips as conformance traces",
+   ref="3/C12 and section 4")
 NOT_YET = {}
 ALL = ["C%02d" % i for i in range(1, 20)]
 
